@@ -127,10 +127,29 @@ func judgePack(v *Val, bufs *[4][]byte) (o packOutcome) {
 			}
 		}
 	}
-	for k := 1; k < 3; k++ {
-		if d := firstDiff(bufs[0][:n], bufs[k][:n]); d >= 0 {
-			add("stale-byte:"+v.ownerOf(d), "the octet at offset %d of an encoded %s value (reported size %d) depends on what the buffer held before: %#02x after pre-fill 00, %#02x after pre-fill %s", d, v.label(), n, bufs[0][d], bufs[k][d], fillNames[k])
-			break
+	// every encoder that owns an octet whose value depends on the pre-fill is reported once
+	if !bytes.Equal(bufs[0][:n], bufs[1][:n]) || !bytes.Equal(bufs[0][:n], bufs[2][:n]) {
+		var owners []string
+		for d := 0; d < n; d++ {
+			k := 0
+			if bufs[1][d] != bufs[0][d] {
+				k = 1
+			} else if bufs[2][d] != bufs[0][d] {
+				k = 2
+			}
+			if k == 0 {
+				continue
+			}
+			ow := v.ownerOf(d)
+			dup := false
+			for _, x := range owners {
+				dup = dup || x == ow
+			}
+			if dup {
+				continue
+			}
+			owners = append(owners, ow)
+			add("stale-byte:"+ow, "the octet at offset %d of an encoded %s value (reported size %d) depends on what the buffer held before: %#02x after pre-fill 00, %#02x after pre-fill %s", d, v.label(), n, bufs[0][d], bufs[k][d], fillNames[k])
 		}
 	}
 	ex := grow(bufs[3], n)
@@ -374,7 +393,7 @@ func c15Spaces(thorough bool) []*space {
 	}
 	out = append(out,
 		listSpace("sub/transport-units", "AppData: every in-domain combination APCI 0..15 x (unnumbered | numbered x sequence 0..15) x data {empty, 15, 2A 80}; ControlData: code 0..3 x (unnumbered | numbered x sequence 0..15)", units),
-		listSpace("sub/AppData-length", "AppData on its own x data of every length 0..600 x first octet {00,01,3F}", appLengthValues([]Val{{Kind: "AppData"}}, 0, 600, []byte{0, 1, 0x3F})),
+		listSpace("sub/AppData-length", "AppData on its own x data of every length 0..600 x first octet {00,01,3F} (length 0 repeats a value of sub/transport-units and is not counted as distinct)", appLengthValues([]Val{{Kind: "AppData"}}, 1, 600, []byte{0, 1, 0x3F}), appLengthValues([]Val{{Kind: "AppData"}}, 0, 0, []byte{0})...),
 		listSpace("sub/Info-length", "cemi.Info on its own x every length 0..600", kindVals("Info", 601, func(i int, v *Val) { v.Info = pattern(i, 11, 0x03) })),
 		listSpace("sub/SupportedServicesDIB", "SupportedServicesDIB on its own x every family count 0..20", kindVals("SupportedServicesDIB", 21, func(i int, v *Val) { v.FamType, v.Fams = 2, famBytes(i) })),
 		listSpace("sub/raw-bodies", "LRaw, LBusmonInd, UnsupportedMessage on their own and the five raw message kinds through cemi.Pack x body of every length 0..300",
